@@ -69,7 +69,14 @@ fn typed_pool() -> Vec<(Kind, RefVal)> {
     v
 }
 fn raw_pool() -> Vec<(u16, Vec<u8>)> {
-    (0..24u16).map(|i| (if i % 2 == 0 { 0x7f20 + i } else { 0xff20 + i }, vec![i as u8; (i as usize * 3) % 11])).collect()
+    let mut v: Vec<(u16, Vec<u8>)> = (0..24u16).map(|i| (if i % 2 == 0 { 0x7f20 + i } else { 0xff20 + i }, vec![i as u8; (i as usize * 3) % 11])).collect();
+    // boundary type codes: the reserved 0x0000 (the value of a default-initialised AttributeType),
+    // the extremes, the comprehension boundary, and the neighbours of the sealing types
+    // 0x0008 / 0x001c / 0x8028 (index 24 onwards; index 24 is in the enumerated alphabet)
+    for (j, t) in [0x0000u16, 0xffff, 0x7fff, 0x8000, 0x0007, 0x001b, 0x001d, 0x8027, 0x8029].into_iter().enumerate() {
+        v.push((t, vec![0xE0 + j as u8; (j * 5) % 7]));
+    }
+    v
 }
 
 #[derive(Clone, Debug, Default)]
@@ -310,7 +317,7 @@ pub fn check_ops(ctx: &mut Ctx, ops: &[Op], creds: &RefCreds) {
 }
 
 fn alphabet() -> Vec<Op> {
-    vec![Op::Typed(0), Op::Typed(1), Op::Typed(2), Op::Raw(0), Op::Dup, Op::Sha1, Op::Sha256, Op::Fp, Op::IntoOwned, Op::Clone]
+    vec![Op::Typed(0), Op::Typed(1), Op::Typed(2), Op::Raw(0), Op::Raw(24), Op::Dup, Op::Sha1, Op::Sha256, Op::Fp, Op::IntoOwned, Op::Clone]
 }
 
 pub fn run(ctx: &mut Ctx) {
@@ -353,7 +360,7 @@ pub fn run(ctx: &mut Ctx) {
         for _ in 0..len {
             ops.push(match rng.below(20) {
                 0..=7 => Op::Typed(rng.below(16) as u8),
-                8..=13 => Op::Raw(rng.below(23) as u8),
+                8..=13 => Op::Raw(rng.below(33) as u8),
                 14 => Op::Dup,
                 15 => Op::Sha1,
                 16 => Op::Sha256,
